@@ -132,6 +132,13 @@ func init() {
 			}
 			o := admissionOpts(c.Idx + 3)
 			o.WSchedule, o.WFinish, o.WCancel, o.WFire, o.WStopRel, o.WRead = 48, 20, 16, 10, 4, 1
+			if c.Idx%6 == 5 {
+				// the table is applied with the limit / strategy in force, also when a reload changed them while more jobs
+				// wait than the new limit allows
+				o.WReload = 10
+				o.FailProb = 0
+				o.Pipe.CyclicProb = 0
+			}
 			return histCase(c, o, 400)
 		},
 		Post: func(tier string, counters map[string]int) []string {
@@ -191,6 +198,13 @@ func init() {
 			o := admissionOpts(c.Idx + 5)
 			o.HTTP = c.Idx%2 == 0
 			o.Pipe.MaxTasks = 5
+			if c.Idx%6 == 4 {
+				// the HTTP listings follow definition reloads at once (pipelines added / removed, limits changed)
+				o.HTTP = true
+				o.WReload = 12
+				o.FailProb = 0
+				o.Pipe.CyclicProb = 0
+			}
 			if c.Idx%6 == 5 {
 				// every accepted job is reported until retention removes it - and retention only removes finished jobs:
 				// histories with a store, retention_count 1-2 and explicit saves (plus the persist loop)
@@ -401,6 +415,12 @@ func init() {
 				o.NPipes = 1
 				o.Classes = []gen.ConfigClass{delayed[c.Idx%len(delayed)]}
 				o.WSchedule, o.WFinish, o.WCancel, o.WFire, o.WStopRel, o.WRead = 36, 22, 12, 26, 3, 1
+				if c.Idx%3 == 2 {
+					// jobs that wait for their delay survive saves with retention (count and period) and then start
+					o.StoreDir = c.TmpDir
+					o.Retention = true
+					o.WSave = 16
+				}
 				if c.Idx%3 == 1 {
 					// the delay a job was accepted under is a lower bound whatever happens to the definition afterwards:
 					// reloads that remove / shorten the delay while timers are pending, followed by completions and cancels
@@ -487,6 +507,7 @@ func init() {
 			o := admissionOpts(c.Idx + 17)
 			o.StoreDir = c.TmpDir
 			o.RichVars = true
+			o.HTTP = c.Idx%2 == 0 // half of the histories schedule over HTTP (the payload is decoded by the server then)
 			o.FailProb = 0.3
 			o.Pipe.AllowFailureProb = 0.3
 			o.MaxOps = 26
@@ -524,6 +545,22 @@ func init() {
 		Assumptions: []string{seqAssumption, "ages are never measured against 'now' at check time with less than 7 minutes of margin"},
 		Cases:       func(t string) int { return tierN(t, 500, 12000) },
 		RunCase: func(c *CaseCtx) *CaseResult {
+			if c.Idx%50 == 49 {
+				// retention settings that change while the binary runs arrive through its reload path, which applies an
+				// edit only if Equals sees it: every single-field edit of the retention settings must be seen
+				c2 := *c
+				c2.Prop = "C17"
+				c2.Idx = 1000*3 + 2 // an "Equals over single-field mutations" case of C17
+				r17 := c17LoadCase(&c2)
+				res := &CaseResult{Idx: c.Idx, Evaluations: r17.Evaluations, Situations: []string{"Equals over edits of the retention settings"}, Inconclusive: r17.Inconclusive}
+				for _, f := range r17.Findings {
+					if strings.Contains(f.Detail, "Retention") {
+						f.Props = []string{"C12", "C17"}
+						res.Findings = append(res.Findings, f)
+					}
+				}
+				return res
+			}
 			return simpleCase(c, drv.RunRetentionCase(c.Seed, c.TmpDir), 100)
 		},
 		MinDistinct: 25,
